@@ -1014,6 +1014,9 @@ pub fn td_history_shaped(ctx: &mut Ctx, n: u64, force_atom: Option<bool>) {
             };
             // histories in which every weight is below 1 (K2/K3 must count samples, not weight)
             let w = if frac_only && w >= 1.0 { *ctx.rng.pick(&[0.5f64, 0.25, 0.999, 0.125]) } else { w };
+            // the dedicated atom cases keep the other weights moderate, so that the oracle's rounding allowance
+            // (proportional to total weight / smallest weight) stays far below the weight of one atom centroid
+            let w = if force_atom.is_some() && (w > 10.0 || (w > 0.0 && w < 0.05)) { 1.0 } else { w };
             let w = if shape == 6 && x == near { atom_w } else { w };
             let w = w * wunit;
             ctx.op(format!("td.insertw 1 {} {}", fx(x), fx(w)));
